@@ -201,10 +201,9 @@ def rand_tree(rng, temps=(1, 2, 3), depth=3, casts=False):
             return ["if", robj() if rng.random() < 0.2 else 0, block(dep - 1), block(dep - 1)]
         if r < 0.5:
             return ["block", block(dep - 1)]
-        # a CaseWhen without branches is only generated by the grid (as the first CaseWhen of its block):
-        # the real code then reads the function-scope variable `branch_temporaries` left by an EARLIER CaseWhen
-        # of the same block, which Temps.v does not model (the front end never emits a CaseWhen without branches)
-        n = rng.randint(1, 3)
+        # a CaseWhen without branches: fine on the current tree; the pre-fix code read the function-scope variable
+        # `branch_temporaries` left by an EARLIER CaseWhen of the same block there, which the coded model does not have
+        n = rng.randint(0, 3) if (MODEL != "coded" and rng.random() < 0.15) else rng.randint(1, 3)
         return ["case", 0, [[0, block(dep - 1, 2)] for _ in range(n)], block(dep - 1, 2) if rng.random() < 0.5 else None]
 
     return block(depth)
